@@ -12,8 +12,6 @@ Helper lemmas for C18.
 -/
 namespace NmlVerif.ArrayMorph
 
-deriving instance DecidableEq for Except
-
 namespace ToRoot
 
 abbrev Conn := Nat → Option Nat      -- parent pointer; `none` is the root (−1 in the array)
